@@ -16,7 +16,9 @@ PROP = "C05"
 GEN = ["GenHandlers"]
 ASSUMPTIONS = [
     "calls that are not peer-influenced (logging, selector (un)registration, thread start, accept, pool bookkeeping) do not raise on behalf of a peer",
-    "a peer that sends a prefix and then stays silent WITHOUT disconnecting blocks the multiplex server (and the thread server's refusal path) until COMMTIMEOUT; the property covers 'cut short by a disconnect' and every truncation here is followed by a close or reset",
+    "without COMMTIMEOUT a peer that sends a prefix and then stays silent WITHOUT disconnecting legitimately blocks the multiplex server (and the thread server's refusal path): there every truncation is followed by a close or reset; with COMMTIMEOUT configured a stalled peer must not block anybody beyond the timeout (stall scenarios, 3 s timeout)",
+    "non-termination (a handler that spins, a read that never times out) is outside the Coq model (it quantifies over exceptions that surface); it is the oracle's watchdog that reports daemon-unresponsive / worker-stranded / accept-loop-blocked",
+    "worker hand-over interleavings in general are C18's subject; here one window (accept exactly while a worker returns to the pool) is forced with hooks in the harness process",
     "an exception is identified by the mro of its class; BaseException subclasses outside Exception (KeyboardInterrupt, SystemExit) are outside the property",
     "the call skeleton (which function calls which, what a function does after one of its handlers ran) is hand-modelled and tied to the code by the correspondence run; handler tables, call enclosure, reply-handler class tests and hierarchy are regenerated from the source",
     "response-annotation leakage between connections is C12's subject, not modelled here",
